@@ -145,6 +145,9 @@ def sites_of(fn):
     for n in ast.walk(fn.node):
         if isinstance(n, ast.Call) and isinstance(n.func, ast.Attribute) and n.func.attr in MUTATORS:
             rec(root_of(n.func.value), n.func.attr, n)
+        elif isinstance(n, ast.AugAssign) and isinstance(n.target, ast.Name):
+            # `x += …` on a list / set / dict changes the object in place: a write through whatever `x` is bound to
+            rec(n.target.id, "augmented-assignment", n)
         elif isinstance(n, (ast.Assign, ast.AugAssign, ast.AnnAssign)):
             ts = n.targets if isinstance(n, ast.Assign) else [n.target]
             for t in ts:
